@@ -25,6 +25,9 @@ type verifNode struct {
 	line  int
 	col   int
 	items []*verifNode
+	// tagged: an explicit YAML tag written in front of the node (`contents: !!seq {a.fga: b.fga}`): yaml.v3 reports
+	// the written tag while the node keeps the kind of what follows the tag
+	tagged string
 }
 
 var verifYAMLSchema, verifYAMLContents *verifNode
@@ -37,6 +40,9 @@ func (n *verifNode) fill(out *yaml.Node) {
 		return
 	}
 	out.Tag = verifTags[n.kind]
+	if n.tagged != "" {
+		out.Tag = n.tagged
+	}
 	out.Value = n.value
 	out.Line = n.line
 	out.Column = n.col
@@ -50,6 +56,9 @@ func (n *verifNode) fill(out *yaml.Node) {
 		}
 	case 3:
 		out.Kind = yaml.MappingNode
+		out.Value = ""
+		// {a.fga: b.fga}: key and value nodes
+		out.Content = []*yaml.Node{{Kind: yaml.ScalarNode, Tag: "!!str", Value: "a.fga", Line: n.line, Column: n.col + 1}, {Kind: yaml.ScalarNode, Tag: "!!str", Value: "b.fga", Line: n.line, Column: n.col + 8}}
 	default:
 		out.Kind = yaml.ScalarNode
 	}
@@ -95,13 +104,18 @@ func verifQuoteYAML(s string) string {
 }
 
 func verifRenderScalar(n *verifNode) string {
+	if n.tagged != "" {
+		u := *n
+		u.tagged = ""
+		return n.tagged + " " + verifRenderScalar(&u)
+	}
 	switch n.kind {
 	case 1:
 		return verifQuoteYAML(n.value)
 	case 2:
 		return "12"
 	case 3:
-		return "{a: b}"
+		return "{a.fga: b.fga}"
 	case 4:
 		return "null"
 	case 5:
@@ -149,10 +163,22 @@ func verifNativeView(text string, schema, contents *verifNode) {
 			return
 		}
 		d.value, d.line, d.col = n.Value, n.Line, n.Column
-		for i, t := range verifTags {
-			if t == n.Tag && i > 0 {
-				d.kind = i
+		switch n.Kind {
+		case yaml.SequenceNode:
+			d.kind = 5
+		case yaml.MappingNode:
+			d.kind = 3
+		default:
+			d.kind = 1
+			for i, t := range verifTags {
+				if t == n.Tag && i > 0 && i != 3 && i != 5 {
+					d.kind = i
+				}
 			}
+		}
+		d.tagged = ""
+		if n.Tag != verifTags[d.kind] {
+			d.tagged = n.Tag
 		}
 	}
 	read(&y.Schema, schema)
@@ -261,8 +287,9 @@ func verifC15Check(schema, contents *verifNode, fail bool) {
 		return
 	}
 	// expected offending entries, as far as the harness' own oracle decides
-	schemaBad := schema.kind != 1 || schema.value != "1.2"
-	contentsBad := contents.kind != 5
+	schemaBad := schema.kind != 1 || schema.tagged != "" || schema.value != "1.2"
+	// a list is a YAML sequence (whatever tag is written in front of something else does not make it one)
+	contentsBad := contents.kind != 5 || (contents.tagged != "" && contents.tagged != "!!seq")
 	if err != nil {
 		zzverif.Reach("rejected")
 		zzverif.Assert(mod == nil, "rejected-returns-no-manifest")
@@ -298,7 +325,7 @@ func verifC15Check(schema, contents *verifNode, fail bool) {
 			expect(contents, contents.kind == 0)
 		} else {
 			for _, it := range contents.items {
-				if it.kind != 1 {
+				if it.kind != 1 || it.tagged != "" {
 					expect(it, false)
 					continue
 				}
@@ -339,7 +366,7 @@ func verifC15Check(schema, contents *verifNode, fail bool) {
 	}
 	for i, p := range mod.Contents.Value {
 		it := contents.items[i]
-		zzverif.Assert(it.kind == 1, "accepted-item-is-string")
+		zzverif.Assert(it.kind == 1 && it.tagged == "", "accepted-item-is-string")
 		zzverif.Assert(zzverif.Not(verifStartsWithSlash(p.Value)), "relative")
 		zzverif.Assert(zzverif.Not(verifHasDotDotSegment(p.Value)), "no-dotdot-segment")
 		zzverif.Assert(zzverif.Not(verifHasByte(p.Value, '\\')), "no-backslash")
@@ -395,7 +422,14 @@ func VerifC15_Manifest() {
 		schema = verifGenNode("schema", 3, zzverif.Param("SCHEMALEN", 5), "12. -") // longer than "1.2": a version that merely starts with it is another version
 	}
 	contents := &verifNode{}
-	switch zzverif.Choose("contents.shape", 3) {
+	switch zzverif.Choose("contents.shape", 4) {
+	case 3:
+		// something that is not a sequence with the tag of one written in front: a mapping, a string, null
+		contents = &verifNode{kind: []int{3, 1, 4}[zzverif.Choose("contents.tagged-kind", 3)], value: "core.fga", tagged: "!!seq",
+			line: zzverif.Int("contents.line", 1, 100000), col: zzverif.Int("contents.col", 1, 100000)}
+		if contents.kind == 4 {
+			contents.value = "null"
+		}
 	case 1:
 		contents = verifGenNode("contents", 4, 1, "")
 	case 2:
@@ -404,14 +438,17 @@ func VerifC15_Manifest() {
 		for i := 0; i < cnt; i++ {
 			tag := fmt.Sprintf("item%d", i)
 			n := &verifNode{kind: 1, line: zzverif.Int(tag+".line", 1, 100000), col: zzverif.Int(tag+".col", 1, 100000)}
-			c := zzverif.Choose(tag+".menu", len(verifC15Menu)+2)
+			c := zzverif.Choose(tag+".menu", len(verifC15Menu)+3)
 			switch {
 			case c < len(verifC15Menu):
 				n.value = verifC15Menu[c]
 			case c == len(verifC15Menu):
 				n.kind, n.value = 2, "x"
-			default:
+			case c == len(verifC15Menu)+1:
 				n.kind, n.value = 3, "x"
+			default:
+				// a mapping with the string tag written in front
+				n.kind, n.value, n.tagged = 3, "x", "!!str"
 			}
 			contents.items = append(contents.items, n)
 		}
